@@ -64,8 +64,14 @@ func (runInfo *runInfoStruct) invokeLetMemberExpr(expr *ast.MemberExpr) {
 		return
 	}
 
+	var slot reflect.Value
 	if runInfo.rv.Kind() == reflect.Ptr {
 		runInfo.rv = runInfo.rv.Elem()
+		if runInfo.rv.Kind() == reflect.Interface && !runInfo.rv.IsNil() {
+			// a pointer to a variable that holds its value in an interface slot (p = &s with s read from a list)
+			slot = runInfo.rv
+			runInfo.rv = runInfo.rv.Elem()
+		}
 	}
 
 	switch runInfo.rv.Kind() {
@@ -111,7 +117,9 @@ func (runInfo *runInfoStruct) invokeLetMemberExpr(expr *ast.MemberExpr) {
 		}
 
 		runInfo.rv.Set(value)
-		if storeBack {
+		if storeBack && slot.IsValid() {
+			slot.Set(structValue)
+		} else if storeBack {
 			runInfo.rv = structValue
 			runInfo.expr = expr.Expr
 			runInfo.invokeLetExpr()
